@@ -89,9 +89,23 @@ impl Check for C03 {
                 if it["via_encoder"].as_bool().unwrap_or(false) {
                     let cmd = Command::from(cmdb);
                     let f = Frame::with_data(cmd, sid, Bytes::from(data.clone()));
-                    let mut dst = BytesMut::new();
+                    // the encoder appends to a buffer that already holds earlier output (what a framed sink
+                    // does): it must add exactly one frame, or nothing at all when it refuses
+                    let prefix_len = std::cmp::min(wire.len(), 64);
+                    let prefix = wire[wire.len() - prefix_len..].to_vec();
+                    let mut shared = BytesMut::from(&prefix[..]);
+                    let res = codec.encode(f.clone(), &mut shared);
+                    if shared.len() < prefix_len || shared[..prefix_len] != prefix[..] {
+                        out.viol("encode", "encode:clobbered-earlier-output", "encode modified bytes already in the output buffer");
+                        return out;
+                    }
+                    if res.is_err() && shared.len() != prefix_len {
+                        out.viol("encode", "encode:refused-frame-left-bytes", format!("encode refused a {}-byte payload but left {} stray bytes in the output buffer", len, shared.len() - prefix_len));
+                        return out;
+                    }
+                    let dst = BytesMut::from(&shared[prefix_len..]);
                     let before = wire.len();
-                    match codec.encode(f.clone(), &mut dst) {
+                    match res {
                         Ok(()) => {
                             // the header must describe the payload that follows it
                             if dst.len() < 7 {
